@@ -65,6 +65,8 @@ impl ProcCfg {
 }
 
 pub struct ServerProc {
+    /// host-wide lock held while a server runs on example.cfg's documented ports (8686 / 8000)
+    pub port_lock: Option<std::fs::File>,
     pub child: Child,
     pub port: u16,
     pub hc_port: Option<u16>,
@@ -81,8 +83,30 @@ impl ServerProc {
         let persist = format!("{}/persist", dir);
         std::fs::create_dir_all(&persist).unwrap();
         let log_path = format!("{}/server.log", dir);
+        // example.cfg's documented ports are a host-wide resource: another check (another tier, another copy of this
+        // machinery) may be running its own example.cfg case — with SO_REUSEPORT two servers can even share UDP 8686 and
+        // steal each other's requests. One at a time (advisory lock, waited for up to 90 s); and the ports are only used
+        // verbatim when nobody else holds them (a plain bind without SO_REUSEPORT fails if anyone does).
+        let mut port_lock: Option<std::fs::File> = None;
+        let mut verbatim_ok = cfg.example_cfg;
+        if cfg.example_cfg {
+            use std::os::unix::io::AsRawFd;
+            let f = std::fs::OpenOptions::new().create(true).write(true).open("/tmp/.roughenough-verif-example-cfg.lock").ok();
+            let mut got = false;
+            if let Some(f) = f {
+                let t0 = Instant::now();
+                while t0.elapsed() < Duration::from_secs(90) {
+                    if unsafe { libc::flock(f.as_raw_fd(), libc::LOCK_EX | libc::LOCK_NB) } == 0 { got = true; break; }
+                    std::thread::sleep(Duration::from_millis(100));
+                }
+                if got { port_lock = Some(f); }
+            }
+            let free = UdpSocket::bind("127.0.0.1:8686").is_ok() && UdpSocket::bind("0.0.0.0:8686").is_ok()
+                && TcpListener::bind("127.0.0.1:8000").is_ok() && TcpListener::bind("0.0.0.0:8000").is_ok();
+            verbatim_ok = got && free;
+        }
         for attempt in 0..5 {
-            let (port, hc_port) = if cfg.example_cfg && attempt == 0 {
+            let (port, hc_port) = if cfg.example_cfg && attempt == 0 && verbatim_ok {
                 (8686u16, Some(8000u16))
             } else {
                 (free_udp_port(), if cfg.hc || cfg.example_cfg { Some(free_tcp_port()) } else { None })
@@ -118,7 +142,7 @@ impl ServerProc {
                 }
             } else {
                 let path = format!("{}/server.yaml", dir);
-                let body: String = if cfg.example_cfg && attempt == 0 {
+                let body: String = if cfg.example_cfg && attempt == 0 && verbatim_ok {
                     std::fs::read_to_string("/repo/example.cfg").map_err(|e| e.to_string())?
                 } else {
                     entries.iter().map(|(k, v)| format!("{}: {}\n", k, v)).collect()
@@ -131,7 +155,7 @@ impl ServerProc {
             cmd.stdin(Stdio::null()).stdout(Stdio::from(log)).stderr(Stdio::from(log2));
             let child = cmd.spawn().map_err(|e| format!("spawn server: {}", e))?;
             let nworkers = cfg.workers.unwrap_or_else(|| std::thread::available_parallelism().unwrap().get());
-            let mut sp = ServerProc { child, port, hc_port, log_path: log_path.clone(), dir: dir.clone(), nworkers };
+            let mut sp = ServerProc { port_lock: port_lock.take(), child, port, hc_port, log_path: log_path.clone(), dir: dir.clone(), nworkers };
             // readiness: a request gets a reply
             if sp.wait_ready(Duration::from_secs(6)) {
                 return Ok(sp);
@@ -382,23 +406,30 @@ fn startup_case(out: &mut Out, r: &mut Rng, cfg: &ProcCfg) {
     // fresh source ports (so that most workers have traffic in every publication window); every one must be answered
     let (mut steady_sent, mut steady_ok) = (0usize, 0usize);
     {
-        let mut pending: Vec<UdpSocket> = vec![];
+        let mut pending: Vec<(UdpSocket, Vec<u8>)> = vec![];
         for _tick in 0..28 {
             let t_end = Instant::now() + Duration::from_millis(110);
             for _ in 0..3 * n {
                 let s = UdpSocket::bind("127.0.0.1:0").unwrap();
                 s.set_read_timeout(Some(Duration::from_millis(2))).unwrap();
                 let req = if r.chance(1, 2) { classic_request(&r.bytes(64), 1024) } else { ietf_request(&VER13, None, &r.bytes(32), 1024) };
-                if s.send_to(&req, sp.addr()).is_ok() { steady_sent += 1; pending.push(s); }
+                if s.send_to(&req, sp.addr()).is_ok() { steady_sent += 1; pending.push((s, req)); }
             }
             while Instant::now() < t_end {
-                pending.retain(|s| match recv_from_port(s, &mut buf, sp.port) { Ok(_) => { steady_ok += 1; false } Err(_) => true });
+                pending.retain(|(s, _)| match recv_from_port(s, &mut buf, sp.port) { Ok(_) => { steady_ok += 1; false } Err(_) => true });
                 if pending.is_empty() { std::thread::sleep(Duration::from_millis(5)); }
             }
         }
-        let t_end = Instant::now() + Duration::from_millis(1500);
-        while !pending.is_empty() && Instant::now() < t_end {
-            pending.retain(|s| match recv_from_port(s, &mut buf, sp.port) { Ok(_) => { steady_ok += 1; false } Err(_) => true });
+        // UDP on an overloaded host may drop a datagram or delay its reply (a host running many of these rigs at once did):
+        // a request still unanswered is retransmitted up to 4 times, 1.5 s apart, before it counts as not answered — a
+        // worker that died does not answer retransmissions either
+        for round in 0..5 {
+            let t_end = Instant::now() + Duration::from_millis(1500);
+            while !pending.is_empty() && Instant::now() < t_end {
+                pending.retain(|(s, _)| match recv_from_port(s, &mut buf, sp.port) { Ok(_) => { steady_ok += 1; false } Err(_) => true });
+            }
+            if pending.is_empty() || round == 4 { break; }
+            for (s, req) in pending.iter() { let _ = s.send_to(req, sp.addr()); }
         }
     }
     let live1 = sp.live_workers();
